@@ -15,15 +15,23 @@
                             the handle (ID, fields) right after the call
    hu_body / hu_step        the same after a script prefix / as a whole request
                             step of a world (observation as Hist.step's)
-   own_cached s o ob ids    the exact condition: o is the object the cache holds
-                            under its own ID, it is not idle, and the cache
-                            cannot overflow while ids are visited
+   own_cached s o ob ids    the condition: o is the object the cache holds under
+                            its own ID, it is not idle, and no entry can be
+                            evicted while ids are visited (the cache is
+                            unbounded, or has room for its entries plus the
+                            listed IDs that are NOT cached, without repetition).
+                            Sufficient, not necessary: when the cache is full
+                            the victim may be another entry (C08U_ex_gap_size_2)
+   hu_reach c l             the world after a history l mixing plain steps and
+                            composite requests (HPlain h | HUser r c post)
+   ff_hstep                 the step is fault-free (and crash-free)
+   ev_sat P e               if e is a save, the user field of its record satisfies P
    handler_at w r pre s o   (C08H) Start of request r returned o and the
                             operations pre have run, reaching s
    listed s u               what UserSessions(u) answers in s
    nouser_at s k            no user under k, in the store and in memory
    data_op                  Set / Delete / Get / GetAndDelete
-   nouser_ev e              e is not a save of a record that carries a user *)
+   nouser_ev e              ev_sat (no user): e is not a save of a record that carries a user *)
 From Sessions Require Import Model.Base Model.Sess Model.Hist Model.HandlerUser Proofs.SessDefs
   Proofs.HistInv Proofs.HistInv2 Proofs.HistInv3 Proofs.UserLaws Proofs.UserHist Proofs.UserHist2 Proofs.UserHistEx
   Proofs.HandlerUser Proofs.HandlerUser2 Proofs.HandlerUser3 Proofs.HandlerUserEx.
@@ -35,7 +43,8 @@ Theorem C08U_own_cached_meaning : forall s o ob ids,
   own_cached s o ob ids <->
   hget s o = Some ob /\ lookup (cache s) (o_id ob) = Some o /\
   (0 <= c_cacheexpiry (conf s))%Z /\ (since (r_access (o_rec ob)) (now s) <= c_cacheexpiry (conf s))%Z /\
-  (c_maxcache (conf s) < 0 \/ Z.of_nat (length (cache s)) + Z.of_nat (length ids) <= c_maxcache (conf s))%Z.
+  (c_maxcache (conf s) < 0 \/
+   Z.of_nat (length (cache s)) + Z.of_nat (length (nodup_keys (filter (fun k => negb (has (cache s) k)) ids))) <= c_maxcache (conf s))%Z.
 Proof. exact own_cached_meaning. Qed.
 
 (* a prefix that ran to its end puts the handler at hu_tail *)
@@ -100,14 +109,47 @@ Theorem C08U_logout_in_handler : forall s o ob had u post,
     (forall k, In k (listed s u) -> nouser_at s' k).
 Proof. exact hu_tail_logout. Qed.
 
-(* at every handler position of every fault-free, crash-free history *)
-Theorem C08U_logout_hist : forall c hs, Forall ff_hop hs -> Forall crash_free hs ->
+(* at every handler position of a request from any world with the invariants *)
+Theorem C08U_logout_at : forall w, sess_inv (w_st w) ->
   forall r pre s o ob u post,
-  handler_at (reach c hs) r pre s o -> own_cached s o ob (listed s u) -> In (o_id ob) (listed s u) ->
+  handler_at w r pre s o -> own_cached s o ob (listed s u) -> In (o_id ob) (listed s u) ->
   forallb data_op post = true ->
   exists s1 s' rs mid new,
     logout_user s u = (s1, Ok tt) /\
-    hu_tail s o (had_cookie (req_q (reach c hs) r)) (ULogout u) post = (s', SOk :: rs, [], Some (o_id ob, mid)) /\
+    hu_tail s o (had_cookie (req_q w r)) (ULogout u) post = (s', SOk :: rs, [], Some (o_id ob, mid)) /\
+    r_user mid = None /\ sess_inv s' /\
+    (exists ob', hget s' o = Some ob' /\ o_id ob' = o_id ob /\ r_user (o_rec ob') = None) /\
+    evs s' = new ++ evs (fire_due s1) /\ Forall nouser_ev new /\
+    (forall k, In k (listed s u) -> nouser_at s' k).
+Proof. exact hu_logout_at. Qed.
+
+(* the invariants hold along histories that mix plain steps and composite
+   requests: a fault-free composite request preserves them ... *)
+Theorem C08U_step_inv : forall w r c post, sess_inv (w_st w) -> rq_plan r = [] ->
+  sess_inv (w_st (fst (hu_step w r c post))).
+Proof. exact hu_step_sess_inv. Qed.
+
+Theorem C08U_ff_hstep_meaning : forall x,
+  ff_hstep x <-> match x with HPlain h => ff_hop h /\ crash_free h | HUser r _ _ => rq_plan r = [] end.
+Proof. exact (fun x => iff_refl _). Qed.
+
+(* ... so they hold in every world such a history reaches ... *)
+Theorem C08U_reach_inv : forall c l, Forall ff_hstep l -> sess_inv (w_st (hu_reach c l)).
+Proof. exact hu_reach_sess_inv. Qed.
+
+(* ... the plain histories of Model/Hist.v being a special case *)
+Theorem C08U_reach_plain : forall c hs, hu_reach c (map HPlain hs) = reach c hs.
+Proof. exact hu_reach_plain. Qed.
+
+(* at every handler position of every fault-free, crash-free history, earlier
+   in-handler calls included *)
+Theorem C08U_logout_hist : forall c l, Forall ff_hstep l ->
+  forall r pre s o ob u post,
+  handler_at (hu_reach c l) r pre s o -> own_cached s o ob (listed s u) -> In (o_id ob) (listed s u) ->
+  forallb data_op post = true ->
+  exists s1 s' rs mid new,
+    logout_user s u = (s1, Ok tt) /\
+    hu_tail s o (had_cookie (req_q (hu_reach c l) r)) (ULogout u) post = (s', SOk :: rs, [], Some (o_id ob, mid)) /\
     r_user mid = None /\ sess_inv s' /\
     (exists ob', hget s' o = Some ob' /\ o_id ob' = o_id ob /\ r_user (o_rec ob') = None) /\
     evs s' = new ++ evs (fire_due s1) /\ Forall nouser_ev new /\
@@ -126,21 +168,56 @@ Theorem C08U_refresh_user_handle : forall s o ob u,
        (forall o2 ob2, lookup (cache s') k = Some o2 -> hget s' o2 = Some ob2 -> r_user (o_rec ob2) = Some u)).
 Proof. exact refresh_user_handle. Qed.
 
-Theorem C08U_refresh_in_handler : forall s o ob had u,
+(* the composite: the call answers nil, the handle carries the new user object
+   right after it and at the end, every record the key/value operations write
+   carries the user's ID, and so does every listed ID at the end (the new object
+   where cached) *)
+Theorem C08U_refresh_in_handler : forall s o ob had u post,
   sess_inv s -> own_cached s o ob (listed s (fst u)) -> In (o_id ob) (listed s (fst u)) ->
-  exists s1 mid,
+  forallb data_op post = true ->
+  exists s1 s' rs mid new,
     refresh_user s u = (s1, Ok tt) /\
-    hu_tail s o had (URefresh u) [] = (fire_due s1, [SOk], [], Some (o_id ob, mid)) /\
-    r_user mid = Some u /\ sess_inv (fire_due s1).
+    hu_tail s o had (URefresh u) post = (s', SOk :: rs, [], Some (o_id ob, mid)) /\
+    r_user mid = Some u /\ sess_inv s' /\
+    (exists ob', hget s' o = Some ob' /\ o_id ob' = o_id ob /\ r_user (o_rec ob') = Some u) /\
+    evs s' = new ++ evs (fire_due s1) /\ Forall (ev_sat (fun x => x = Some (fst u, 0%N))) new /\
+    (forall k, In k (listed s (fst u)) ->
+       (forall r, lookup (store s') k = Some r -> r_user r = Some (fst u, 0%N)) /\
+       (forall o2 ob2, lookup (cache s') k = Some o2 -> hget s' o2 = Some ob2 -> r_user (o_rec ob2) = Some u)).
 Proof. exact hu_tail_refresh. Qed.
 
-Theorem C08U_refresh_hist : forall c hs, Forall ff_hop hs -> Forall crash_free hs ->
-  forall r pre s o ob u,
-  handler_at (reach c hs) r pre s o -> own_cached s o ob (listed s (fst u)) -> In (o_id ob) (listed s (fst u)) ->
-  exists s1 mid,
+Theorem C08U_ev_sat_meaning : forall P e,
+  ev_sat P e <-> match e with EvSave _ r _ => P (r_user r) | _ => True end.
+Proof. exact (fun P e => iff_refl _). Qed.
+
+Theorem C08U_refresh_at : forall w, sess_inv (w_st w) ->
+  forall r pre s o ob u post,
+  handler_at w r pre s o -> own_cached s o ob (listed s (fst u)) -> In (o_id ob) (listed s (fst u)) ->
+  forallb data_op post = true ->
+  exists s1 s' rs mid new,
     refresh_user s u = (s1, Ok tt) /\
-    hu_tail s o (had_cookie (req_q (reach c hs) r)) (URefresh u) [] = (fire_due s1, [SOk], [], Some (o_id ob, mid)) /\
-    r_user mid = Some u /\ sess_inv (fire_due s1).
+    hu_tail s o (had_cookie (req_q w r)) (URefresh u) post = (s', SOk :: rs, [], Some (o_id ob, mid)) /\
+    r_user mid = Some u /\ sess_inv s' /\
+    (exists ob', hget s' o = Some ob' /\ o_id ob' = o_id ob /\ r_user (o_rec ob') = Some u) /\
+    evs s' = new ++ evs (fire_due s1) /\ Forall (ev_sat (fun x => x = Some (fst u, 0%N))) new /\
+    (forall k, In k (listed s (fst u)) ->
+       (forall rr, lookup (store s') k = Some rr -> r_user rr = Some (fst u, 0%N)) /\
+       (forall o2 ob2, lookup (cache s') k = Some o2 -> hget s' o2 = Some ob2 -> r_user (o_rec ob2) = Some u)).
+Proof. exact hu_refresh_at. Qed.
+
+Theorem C08U_refresh_hist : forall c l, Forall ff_hstep l ->
+  forall r pre s o ob u post,
+  handler_at (hu_reach c l) r pre s o -> own_cached s o ob (listed s (fst u)) -> In (o_id ob) (listed s (fst u)) ->
+  forallb data_op post = true ->
+  exists s1 s' rs mid new,
+    refresh_user s u = (s1, Ok tt) /\
+    hu_tail s o (had_cookie (req_q (hu_reach c l) r)) (URefresh u) post = (s', SOk :: rs, [], Some (o_id ob, mid)) /\
+    r_user mid = Some u /\ sess_inv s' /\
+    (exists ob', hget s' o = Some ob' /\ o_id ob' = o_id ob /\ r_user (o_rec ob') = Some u) /\
+    evs s' = new ++ evs (fire_due s1) /\ Forall (ev_sat (fun x => x = Some (fst u, 0%N))) new /\
+    (forall k, In k (listed s (fst u)) ->
+       (forall rr, lookup (store s') k = Some rr -> r_user rr = Some (fst u, 0%N)) /\
+       (forall o2 ob2, lookup (cache s') k = Some o2 -> hget s' o2 = Some ob2 -> r_user (o_rec ob2) = Some u)).
 Proof. exact hu_refresh_hist. Qed.
 
 (* ---- (2) cache sizes 0 and 1: refuted ---- *)
@@ -233,7 +310,53 @@ Theorem C08U_ex_after_drop :
   users_seen 0 (ULogout 5) = [Some None; Some None; Some (Some (5, 0)%N); None; Some None; Some (Some (5, 0)%N)].
 Proof. exact users_after_drop. Qed.
 
+(* the size clause: holds at cache size 3 (both listed IDs cached, nothing to
+   load); fails at size 2 (one listed ID must be loaded into a full cache) where
+   the outcome is nevertheless that of (1): sufficient, not necessary *)
+Theorem C08U_ex_own_cached_size_3 :
+  let s := fst (at_handler 3) in
+  exists ob, own_cached s 2 ob (listed s 5) /\ In (o_id ob) (listed s 5) /\
+    length (cache s) = 3 /\ uncached s (listed s 5) = [] /\ c_maxcache (conf s) = 3%Z.
+Proof. exact own_cached_3. Qed.
+
+Theorem C08U_ex_gap_size_2 :
+  let s := fst (at_handler 2) in
+  snd (at_handler 2) = Some 2 /\ c_maxcache (conf s) = 2%Z /\ length (cache s) = 2 /\
+  uncached s (listed s 5) = [KGen 1] /\
+  ~ (c_maxcache (conf s) < 0 \/ Z.of_nat (length (cache s)) + Z.of_nat (length (uncached s (listed s 5))) <= c_maxcache (conf s))%Z /\
+  let '(s', rs, cks, mid) := hu_tail s 2 true (ULogout 5) postH in
+  option_map (fun x => r_user (snd x)) mid = Some None /\
+  map (fun kr => (fst kr, r_user (snd kr))) (store s') = [(KGen 0, None); (KGen 1, None); (KGen 2, None); (KGen 3, None)].
+Proof. exact own_cached_gap_2. Qed.
+
+(* RefreshUser followed by key/value operations *)
+Theorem C08U_ex_refresh_post :
+  let '(s', rs, cks, mid) := hu_tail s10 2 true (URefresh (5%N, 9%N)) postH in
+  rs = [SOk; SOk; SVal (Some 2%N)] /\ option_map (fun x => r_user (snd x)) mid = Some (Some (5%N, 9%N)) /\
+  map (fun kr => (fst kr, r_user (snd kr))) (store s') =
+    [(KGen 0, None); (KGen 1, Some (5%N, 0%N)); (KGen 2, None); (KGen 3, Some (5%N, 0%N))] /\
+  option_map (fun ob => r_user (o_rec ob)) (hget s' 2) = Some (Some (5%N, 9%N)).
+Proof. exact hu_refresh_post_10. Qed.
+
+(* a history with an earlier in-handler call (RefreshUser by browser 1's
+   handler), then browser 2's handler: the hypotheses of C08U_logout_hist hold *)
+Theorem C08U_ex_mixed_history :
+  Forall ff_hstep lMix /\ handler_at (hu_reach (cH 10) lMix) rH [SSet 1 1] sMix 2 /\
+  exists ob, own_cached sMix 2 ob (listed sMix 5) /\ In (o_id ob) (listed sMix 5) /\ r_user (o_rec ob) = Some (5%N, 7%N).
+Proof. exact (conj lMix_ok (conj handler_at_mix own_cached_mix)). Qed.
+
 Print Assumptions C08U_own_cached_meaning.
+Print Assumptions C08U_logout_at.
+Print Assumptions C08U_step_inv.
+Print Assumptions C08U_ff_hstep_meaning.
+Print Assumptions C08U_reach_inv.
+Print Assumptions C08U_reach_plain.
+Print Assumptions C08U_ev_sat_meaning.
+Print Assumptions C08U_refresh_at.
+Print Assumptions C08U_ex_own_cached_size_3.
+Print Assumptions C08U_ex_gap_size_2.
+Print Assumptions C08U_ex_refresh_post.
+Print Assumptions C08U_ex_mixed_history.
 Print Assumptions C08U_body_at.
 Print Assumptions C08U_step_reports.
 Print Assumptions C08U_logout_user_handle.
